@@ -252,6 +252,27 @@ def _v_rebuild_index(tree):
     M.replace_stmt(g, lambda s: M.src_is(s, "idx = len(clauses) + i"), M.stmts("idx = i"))
 
 
+def _v_head_reset_to_trail_end(tree):
+    g = M.find_func(tree, "solve_sat.unassign_to")
+    M.replace_expr(g, lambda e: M.src_is(e, "min(prop_head, len(trail))"), M.expr("len(trail)"))
+    ret = [s for s in g.body if isinstance(s, ast.If) and any(isinstance(x, ast.Return) for x in s.body)]
+    if not ret:
+        raise M.Skip("early return not found")
+    i = g.body.index(ret[0])
+    rest = g.body[i + 1 : -1]
+    g.body = g.body[:i] + [ast.If(test=M.expr("len(trail_lim) > level"), body=rest, orelse=[])] + [g.body[-1]]
+
+
+def _t_unassign_single_exit(tree):
+    """equally valid: single-exit form that keeps the min"""
+    g = M.find_func(tree, "solve_sat.unassign_to")
+    ret = [s for s in g.body if isinstance(s, ast.If) and any(isinstance(x, ast.Return) for x in s.body)]
+    if not ret:
+        raise M.Skip("early return not found")
+    i = g.body.index(ret[0])
+    g.body = g.body[:i] + [ast.If(test=M.expr("len(trail_lim) > level"), body=g.body[i + 1 :], orelse=[])]
+
+
 def _v_flag_kept_on_skip(tree):
     g = M.find_func(tree, "solve_sat.pick_var")
     M.replace_stmt(g, lambda s: M.src_is(s, "in_heap[var] = False"), [])
@@ -294,6 +315,8 @@ VARIANTS = [
     M.Variant("unassigned variable not re-inserted in the heap", SAT, _v_no_heap_reinsert, "C01-O5"),
     M.Variant("reduce_db rebuild registers clauses under their list position", SAT, _v_rebuild_index, "C01-O3"),
     M.Variant("pick_var clears the in-heap flag only for the variable it returns (seed C01-D)", SAT, _v_flag_kept_on_skip, "C01-O7"),
+    M.Variant("unassign_to sets the propagation head to the trail end on every call (seed C01-E)", SAT, _v_head_reset_to_trail_end, "C01-O7"),
+    M.Variant("twin: unassign_to in single-exit form", SAT, _t_unassign_single_exit, None),
     M.Variant("twin: reformat only", SAT, _t_reformat, None),
     M.Variant("twin: rename locals of the backtrack routine", SAT, _t_rename, None),
     M.Variant("twin: backtrack written as pop-and-cut loop", SAT, _t_pop_form, None),
